@@ -7,6 +7,8 @@ import (
 	"reflect"
 	"strings"
 
+	"github.com/xinchentechnote/fin-proto-go/codec"
+
 	"verif/internal/gen"
 	"verif/internal/ref"
 	"verif/internal/schema"
@@ -70,14 +72,15 @@ func frameWorkload(e *Env, needSum bool, reps int, visit func(o *frameObs)) {
 			}
 		}
 	}
-	staleVals := []uint64{0, 4, 0xFFFFFFFF, 0}
+	staleVals := []uint64{0, 4, 0xFFFFFFFF, 0, 0}
+	const nStale = 5 // index 3 = random, index 4 = already the CORRECT length / checksum (re-encode, forwarded frame)
 	e.Par(len(jobs), func(ji int) {
 		j := jobs[ji]
 		t, fi := j.t, frameOf(j.t)
 		bt := e.S.Lookup(t.Pkg, j.en.Type)
 		for bk, bkName := range bodyKinds {
-			for h := 0; h < 7; h++ {
-				for si := 0; si < 4; si++ {
+			for h := 0; h < nHist; h++ {
+				for si := 0; si < nStale; si++ {
 					caseID := fmt.Sprintf("%s/key=%v/%s/%s/stale%d/rep%d", t.QName, j.en.Key, bkName, histNames[h], si, j.rep)
 					rng := gen.NewRng(e.Seed, e.R.Prop, caseID)
 					g := &gen.Gen{S: e.S, C: e.C, R: rng, O: &gen.Opts{}}
@@ -112,11 +115,25 @@ func frameWorkload(e *Env, needSum bool, reps int, visit func(o *frameObs)) {
 					}
 					// discriminator
 					gen.SetScalarBits(fv.FieldByName("MsgType"), kindOfField(t, "MsgType"), j.en.Key.(uint64))
-					var earlier []byte
-					if h == 2 {
-						earlier, _, _ = EncodeFresh(val.Clone(frame))
+					if si == 4 {
+						// learn the correct computed values from the reference interpreter and hand them in as the caller's values
+						if rb, err := e.C.Encode(t, val.Clone(frame)); err == nil && len(rb) >= fi.hdr+fi.trailer() {
+							gen.SetScalarBits(fv.FieldByName(fi.lenField), fi.lenKind, uint64(len(rb)-fi.hdr-fi.trailer()))
+							if fi.sumField != "" {
+								x, _ := getIntAt(rb, len(rb)-fi.trailer(), fi.trailer(), t.LE)
+								gen.SetScalarBits(fv.FieldByName(fi.sumField), fi.sumKind, x)
+							}
+						}
 					}
-					buf, pre := mkHistory(h, rng, earlier, fi.hdr)
+					var earlier []byte
+					room := fi.hdr
+					if h == 2 || h == 8 {
+						earlier, _, _ = EncodeFresh(val.Clone(frame))
+						if h == 8 {
+							room = len(earlier) - 1 - rng.Intn(4)
+						}
+					}
+					buf, pre := mkHistory(h, rng, earlier, room)
 					err, p := LibEncode(frame, buf)
 					o := &frameObs{t: t, fi: fi, key: j.en.Key, bodyKind: bkName, hist: h, frame: frame, pre: pre, body: body, err: err, caseID: caseID}
 					o.stale = staleVals[si]
@@ -170,8 +187,11 @@ func fieldBits(msg any, name string) uint64 {
 func frameCheck(e *Env, sum bool) {
 	r := e.R
 	prop := r.Prop
+	if isAbsentChild(e) {
+		codec.Clear()
+	}
 	if !sum {
-		r.Rule("every self-measuring frame type (SseBinary, SzseBinary, RcBinary, RootPacket) × every registered message type of its table × body kind {zero, canonical, long variable-length parts, absent} × buffer history H1..H7 (empty, random content, earlier frames, partly consumed, drained and reused, garbage in spare capacity, exactly header-sized spare capacity so that the backing array is reallocated between the length placeholder and its patch) × stale caller-supplied length/checksum {0, 4, 0xFFFFFFFF, random}; thorough adds frames > 8 MiB. distinct_nontrivial = distinct (type,key,body kind,history,stale) combinations whose body is non-empty")
+		r.Rule("every self-measuring frame type (SseBinary, SzseBinary, RcBinary, RootPacket) × every registered message type of its table × body kind {zero, canonical, long variable-length parts, absent} × buffer history H1..H7 (empty, random content, earlier frames, partly consumed, drained and reused, garbage in spare capacity, exactly header-sized spare capacity so that the backing array is reallocated between the length placeholder and its patch) × caller-supplied length/checksum {0, 4, 0xFFFFFFFF, random, already correct}; thorough adds frames > 8 MiB. distinct_nontrivial = distinct (type,key,body kind,history,stale) combinations whose body is non-empty")
 		r.Explain("Oracle: the length token found in the appended bytes at the schema position (SSE @12, SZSE @4, risk @8: big-endian u32; sample root @2: little-endian u32) == number of appended bytes − header − trailer == the frame object's length field after Encode == length of the reference encoder's rendering of the body.")
 	} else {
 		r.Rule("every checksummed frame type (SseBinary, SzseBinary, RootPacket) × every registered message type × body kind × buffer history H1..H7 × stale caller-supplied values, as for C04; thorough adds frames > 8 MiB with many 0xFF bytes. distinct_nontrivial = distinct combinations whose prior buffer content was non-empty")
@@ -259,6 +279,9 @@ func frameCheck(e *Env, sum bool) {
 	})
 	if e.Thorough {
 		bigFrames(e, sum)
+	}
+	if !sum && !isAbsentChild(e) {
+		runAbsentChild(e) // the length field must be right whether or not a checksum service is registered
 	}
 	r.Set("frames_by_history_body_and_type", byHist.m)
 	if sum && e.Only == "" && byHist.m["frames-with-nonempty-prior-buffer"] == 0 {
